@@ -7,7 +7,9 @@ CONSTANTS
   Sizes = {1}
   BatchBytes = 0
   SendUnderLock = TRUE
+  M_HeartbeatOneSection = TRUE
+  M_StopLeavesPartial = TRUE
   WithStop = TRUE
-INVARIANTS StopSafe SizeBound CommitOnlySent CommitOnce CommitInSeqOrder Staleness
+INVARIANTS StopSafe SizeBound CommitOnlySent CommitOnce CommitInSeqOrder HandOverOnce Staleness
 PROPERTIES StopTerminates
 CHECK_DEADLOCK FALSE
